@@ -279,7 +279,14 @@ func c04Strata() []*gast.Grammar {
 		{Name: "A", Expr: gast.S(gast.L("1"), gast.L("2"), gast.L("3"), gast.L("4"), gast.L("5"), gast.L("6"), gast.L("7"), gast.L("8"), gast.L("9"), a, gast.Ref("A1"))},
 		{Name: "A1", Expr: act(gast.L("x"), 2)},
 	}}
-	return []*gast.Grammar{g1}
+	// a leaf rule with code predicates referenced from two recursive hosts (inlined twice by -optimize-grammar)
+	g2 := &gast.Grammar{Rules: []*gast.Rule{
+		{Name: "S", Expr: gast.S(gast.Ref("Let"), gast.Ref("Expr"))},
+		{Name: "Let", Expr: gast.S(gast.Ref("P"), gast.L("a"), gast.Opt(gast.Ref("Let")))},
+		{Name: "Expr", Expr: gast.S(gast.Ref("P"), gast.L("b"), gast.Opt(gast.Ref("Expr")))},
+		{Name: "P", Expr: gast.S(gast.AndC(3, mon.Spec{}), gast.NotC(4, mon.Spec{B: 1}), gast.L("x"))},
+	}}
+	return []*gast.Grammar{g1, g2}
 }
 
 func (c *Ctx) runKnownC04() {
